@@ -339,14 +339,41 @@ class Definition(Item):
             f, args = self.prop.lhs.strip_comb()
             if f != Const(self.name, self.type):
                 raise ItemException("Definition %s: wrong head of lhs" % self.name)
+            if not all(v.is_var() for v in args):
+                raise ItemException("Definition %s: arguments on lhs must be variables" % self.name)
             lhs_vars = set(v.name for v in args)
             rhs_vars = set(v.name for v in self.prop.rhs.get_vars())
             if len(lhs_vars) != len(args):
                 raise ItemException("Definition %s: variables on lhs must be distinct" % self.name)
-            if not rhs_vars.issubset(lhs_vars):
+            if not rhs_vars.issubset(lhs_vars) or not set(self.prop.rhs.get_vars()).issubset(set(args)):
                 raise ItemException(
                     "Definition %s: extra variables in rhs: %s" % (
                         self.name, ", ".join(v for v in rhs_vars - lhs_vars)))
+
+            # A definition is not recursive, and its value is determined
+            # by the type of the constant.
+            def type_vars(T):
+                return set(T.get_tvars()) | set(T.get_stvars())
+
+            for c in self.prop.rhs.get_consts():
+                if c.name == self.name and (c.T == self.type or type_vars(c.T) or type_vars(self.type)):
+                    raise ItemException("Definition %s: constant occurs in rhs" % self.name)
+            rhs_Ts = []
+            def collect_types(t):
+                if t.is_var() or t.is_const():
+                    rhs_Ts.append(t.T)
+                elif t.is_comb():
+                    collect_types(t.fun)
+                    collect_types(t.arg)
+                elif t.is_abs():
+                    rhs_Ts.append(t.var_T)
+                    collect_types(t.body)
+            collect_types(self.prop.rhs)
+            extra_Ts = set().union(*[type_vars(T) for T in rhs_Ts]) - type_vars(self.type)
+            if extra_Ts:
+                raise ItemException(
+                    "Definition %s: extra type variables in rhs: %s" % (
+                        self.name, ", ".join(str(T) for T in extra_Ts)))
 
         except Exception as error:
             self.type = data['type']
